@@ -407,6 +407,11 @@ func genC04Store(g *gen, tier string) *Scenario {
 			maxEnd = t
 		}
 		sc.Clients = append(sc.Clients, ops)
+		if g.pct(30) {
+			// the first restart loads into an idle standby cache that is older than the saving one
+			sc.Params["standby"] = pick(g, int64(g.rng(1, 3000))*ms, int64(g.rng(3, 90))*sec, int64(g.rng(100, 5000))*sec)
+			sc.Family = "store-restart,older-standby"
+		}
 	}
 	if fam == "store-busy" {
 		stall := int64(g.rng(100, 600)) * ms
